@@ -58,6 +58,8 @@ STATEMENT_STATUS = {
     "C18_inline_scan_ws_rule": "proved (any separator, also none, after a body without marker whose last byte is not E/I)",
     "C18_inline_scan_pseof": "proved (no marker and not ending in EI: PSEOF)",
     "C18_inline_scan_norestart_cex": "proved (E directly in front of EI hides the marker: limit of the rule)",
+    "C18_ltimage_fields": "proved (every dictionary: do_EI acceptance and LTImage srcsize/bits/colorspace/imagemask; abbreviated key wins)",
+    "C18_assemble_last_wins": "proved (every run of /key value operands: the last pair with a key wins; table-93 entry = last abbreviated, else last full)",
     "C18_abbrev_tables": "proved on key tuples / filter / colour space literals regenerated from layout.py, pdftypes.py, pdfinterp.py, pdfcolor.py",
     "C18_eos_both_keys": "proved (end marker independent of the spelling /F | /Filter; fix 964c0ea)",
     "C18_branch_table": "proved (decision table of export_image over plausibility, filters, bits, colour space: total, rows disjoint)",
@@ -1347,6 +1349,10 @@ CS_NAMES = ["G", "RGB", "CMYK", "I", "DeviceGray", "DeviceRGB", "DeviceCMYK", "I
 FLT_NAMES = ["A85", "ASCII85Decode", "Fl", "FlateDecode", "AHx", "DCT", "LZW", "RL", "Zz"]
 
 
+_KEY_PAIRS = [("W", "Width"), ("H", "Height"), ("BPC", "BitsPerComponent"), ("CS", "ColorSpace"), ("IM", "ImageMask"),
+              ("F", "Filter")]
+
+
 def gen_dict_objs(rng):
     """Operand list between BI and ID: mostly a well-formed image dictionary, with rare keys/values of every kind."""
     objs = []
@@ -1356,8 +1362,12 @@ def gen_dict_objs(rng):
         for must in (rng.choice(["W", "Width"]), rng.choice(["H", "Height"])):
             if must not in keys:
                 keys.append(must)
-    if rng.random() < 0.15:
+    if rng.random() < 0.25:
         keys.append(rng.choice(keys))          # a key twice: the later value wins
+    if rng.random() < 0.25:
+        # round 6c: both spellings of one entry (the abbreviated key wins, wherever it stands), possibly repeated
+        a, f = rng.choice(_KEY_PAIRS)
+        keys += [a, f] + ([rng.choice([a, f])] if rng.random() < 0.4 else [])
     rng.shuffle(keys)
     for k in keys:
         objs.append(W.Name(k.encode()))
@@ -1464,6 +1474,11 @@ def run_inline_dict(ctx: C.Ctx) -> None:
         inputs.append(("inlinedict", {"objs": wire, "input": body.hex(), "bufsiz": bs}))
         ctx.case(("idict", wire, body), True, branch="inlinedict:" + (r.split(" ")[0] if r.startswith("E:") else
                                                                       ("lt" if not r.endswith("lt=none") else "no-lt")))
+        knames = [o.b.decode("latin-1") if isinstance(o, W.Name) else None for o in objs[0::2]]
+        if len(set(knames)) < len(knames):
+            ctx.branch("inlinedict:key-repeated")
+        if any(a in knames and f in knames for a, f in _KEY_PAIRS):
+            ctx.branch("inlinedict:both-spellings")
         if " size=-" not in r and r.startswith("OK"):
             ctx.branch("inlinedict:size-known")
         if r.startswith("OK ei=0"):
